@@ -139,24 +139,18 @@ def stopW : W :=
     acfg := [{ startSeq := 1, strategy := .config }],
     procs := [{ infos := [(0, sInfo)], state := .stopped }, { infos := [], state := .stopped }] }
 
-/-- what the code does on the witness: p0 is started, p1 is refused for lack of resource, and NO stop is requested: the forced FATAL
-    re-enters `Commander.next` while the job has nothing planned nor in progress, the job is dropped (`after` sees no stop request
-    yet), and only then `process_failure` records the stop request, on a job nobody looks at any more -/
+/-- the witness of the former known finding `C03:stop-strategy-dropped-with-job` (repaired: while the commands of a sequence group
+    are processed the job can no longer be declared complete by the forced event of a command that cannot be performed): p0 is
+    started, p1 is refused for lack of resource, and p0 IS asked to stop -/
 theorem C03_stop_strategy_witness :
     startedIn (realStartApplication stopW 0 .config) 0 = true ∧ forcedFatalIn (realStartApplication stopW 0 .config) 1 = true
-    ∧ stopAskedIn (realStartApplication stopW 0 .config) 0 = false := by decide +kernel
+    ∧ stopAskedIn (realStartApplication stopW 0 .config) 0 = true := by decide +kernel
 
-/-- Known finding `C03:stop-strategy-dropped-with-job` (same root cause as `C10:start-request-untracked`). -/
-theorem C03_stop_strategy_applied_refuted : ¬ C03_stop_strategy_applied_statement := by
-  intro h
-  have := h stopW 0 .config rfl rfl rfl rfl rfl 1 rfl rfl rfl C03_stop_strategy_witness.2.1 0 rfl C03_stop_strategy_witness.1
-  rw [C03_stop_strategy_witness.2.2] at this
-  cases this
-
-/-- **C03 (STOP strategy — partial).**  The decision itself is right (`C03_failure_strategy`: a STOP failure empties the plan and
-    records the stop request) and is applied when the job outlives the forced event: on the witness world with one more sequence
-    group planned after the failing one (p2, sequence 3), p0 is asked to stop and p2 is never requested — a finite check; the general
-    theorem needs an invariant of the re-entrant commander, not done. -/
+/-- **C03 (STOP strategy — partial: finite checks).**  The decision itself is right for every job (`C03_failure_strategy`: a STOP
+    failure empties the plan and records the stop request); it is applied on the witness above (the failing group is the last one)
+    and on the same world with one more sequence group planned after the failing one (p2, sequence 3): p0 is asked to stop and p2
+    is never requested.  The general statement (`C03_stop_strategy_applied_statement`, for every world) needs an invariant of the
+    re-entrant commander: not proved; it is judged on every generated case by the monitor (`C03-stop-strategy-not-applied`). -/
 theorem C03_stop_strategy_applied_partial :
     let w : W := { stopW with pcfg := stopW.pcfg ++ [{ app := 0, startSeq := 3, required := false, waitExit := false, load := 0,
                                                        sfail := .cont, idents := none, startsecs := 1 }],
@@ -164,6 +158,21 @@ theorem C03_stop_strategy_applied_partial :
     startedIn (realStartApplication w 0 .config) 0 = true ∧ forcedFatalIn (realStartApplication w 0 .config) 1 = true
     ∧ stopAskedIn (realStartApplication w 0 .config) 0 = true ∧ startedIn (realStartApplication w 0 .config) 2 = false := by
   decide +kernel
+
+/-- the variant that survived a first, narrower repair attempt (strategy applied before the forced event): the refused STOP process
+    (p2, required) comes AFTER another refused process of the same last group (p1, optional): the forced event of p1 used to drop
+    the job before p2 was looked at -/
+def stopW2 : W :=
+  { stopW with
+    pcfg := [{ app := 0, startSeq := 1, required := false, waitExit := false, load := 0, sfail := .cont, idents := none, startsecs := 1 },
+             { app := 0, startSeq := 2, required := false, waitExit := false, load := 0, sfail := .cont, idents := none, startsecs := 1 },
+             { app := 0, startSeq := 2, required := true, waitExit := false, load := 0, sfail := .stop, idents := none, startsecs := 1 }],
+    procs := [{ infos := [(0, sInfo)], state := .stopped }, { infos := [], state := .stopped }, { infos := [], state := .stopped }] }
+
+theorem C03_stop_strategy_witness_late :
+    startedIn (realStartApplication stopW2 0 .config) 0 = true ∧ forcedFatalIn (realStartApplication stopW2 0 .config) 1 = true
+    ∧ forcedFatalIn (realStartApplication stopW2 0 .config) 2 = true
+    ∧ stopAskedIn (realStartApplication stopW2 0 .config) 0 = true := by decide +kernel
 
 -- non-vacuity: a plan with two groups (sequence 0 left out)
 def exW : W :=
